@@ -19,6 +19,14 @@ def gen(depth):
         for u in TEXTS:
             yield (b"{~~" + t + b"~>" + u + b"~~}", u, t)
 
+def gen_sub_nested():
+    """substitutions one half of which contains another complete mark (the quantifier's 'nestings of the five mark types'): the mark inside the kept half is resolved like any other, the other half disappears"""
+    for (s, a, r) in gen(1):
+        if not s.startswith(b"{"): continue
+        for x, y in ((b"", b""), (b"p", b"q"), (b"p ", b"\n\nq")):
+            yield (b"{~~" + x + s + y + b"~>new~~}", b"new", x + r + y)
+            yield (b"{~~old~>" + x + s + y + b"~~}", x + a + y, b"old")
+
 # a backslash before the opening brace makes the opener plain text (and leaves its closer unmatched): top-level items only, identity under both operations
 ESCAPED = [(x, x, x) for x in (b"\\{++e++}", b"\\{--e--}", b"\\{~~e~>f~~}", b"\\{==e==}", b"\\{>>e<<}")]
 ITEMS = None
@@ -163,6 +171,19 @@ def run(tier):
         pmap.fold(rep, name, n, res, "%d edit-script items, all sequences of length %d, accept/reject/idempotence/sub-ranges" % (len(its), L))
         if name == "items-depth2-len1":
             for k in (0, 60, 120, 200): rep.add_sample(dict(src=its[k][0].decode("latin-1"), accepted=its[k][1].decode("latin-1"), rejected=its[k][2].decode("latin-1")))
+    nested = [it for it in gen_sub_nested() if not ambiguous([it])]
+    ctx = [(b"", b"", b""), (b"x ", b"x ", b"x "), (b"{++k++}", b"k", b""), (b"{--k--} ", b" ", b"k ")]
+    seqs = [(c, it, d) for it in nested for c in ctx for d in ctx]
+    def nested_case(idx):
+        parts = list(seqs[idx])
+        if ambiguous(parts): return (None, [], dict(skipped=1))
+        src = b"".join(p[0] for p in parts); acc = b"".join(p[1] for p in parts); rej = b"".join(p[2] for p in parts); v = []
+        a = mmd.critic(src); r = mmd.critic(src, True)
+        if a != acc: v.append(("critic:accept-mismatch:mark-inside-substitution", "accept(%r) = %r, expected %r" % (src, a, acc), dict(src=src.decode("latin-1"), op="accept")))
+        if r != rej: v.append(("critic:reject-mismatch:mark-inside-substitution", "reject(%r) = %r, expected %r" % (src, r, rej), dict(src=src.decode("latin-1"), op="reject")))
+        return (pmap.h64(src), v, dict(judged=1))
+    res = pmap.pmap(len(seqs), nested_case, deadline_s=dl * 0.8)
+    pmap.fold(rep, "marks-inside-substitution-halves", len(seqs), res, "%d substitutions whose old or new half contains one complete mark (every depth-1 item, bare or between words, also across a paragraph break) x 4 left x 4 right neighbours" % len(nested))
     ud = unmatched_docs()
     res = pmap.pmap(len(ud), unmatched_case(ud))
     pmap.fold(rep, "unmatched-markers", len(ud), res, "every marker alone and every marker inside every well-formed pair: must be left untouched")
